@@ -104,7 +104,23 @@ class ScopeFault(Exception):
 
 
 EXC = {"ValueError": ValueError, "ScopeFault": ScopeFault, "KeyboardInterrupt": KeyboardInterrupt,
-       "ZeroDivisionError": ZeroDivisionError}
+       "ZeroDivisionError": ZeroDivisionError, "SystemExit": SystemExit}
+
+
+class InterruptingUnits(dict):
+    """A units mapping that is being produced lazily: handing over the k-th entry fails
+    with a BaseException (KeyboardInterrupt while the user waits, SystemExit from a
+    loader).  The mapping is the registration seam of UnitEnvironment."""
+
+    def __init__(self, data, k, exc):
+        super().__init__(data)
+        self._k, self._exc = k, exc
+
+    def items(self):
+        for n, kv in enumerate(list(super().items())):
+            if n == self._k:
+                raise self._exc("interrupted while units were being registered")
+            yield kv
 
 
 def build_units(spec):
@@ -138,7 +154,7 @@ class UnitScopeMachine(Machine):
         fault_free = rng.random() < 0.25
         bad_kinds = [k for k in ("dup_table", "dup_enclosing", "clash_prefixed",
                                  "prefixed_clash_table", "no_magnitude", "no_dimensions",
-                                 "unknown_prefix") if rng.random() < 0.6]
+                                 "unknown_prefix", "interrupt") if rng.random() < 0.6]
         return {
             "prop": prop, "tier": tier,
             "max_ops": rng.randint(4, 25) if tier == "quick" else rng.randint(6, 40),
@@ -291,6 +307,22 @@ class UnitScopeMachine(Machine):
             good = [self._spec(rng, s) for s in names]
             if cfg["bad_kinds"] and rng.random() < cfg["p_bad"]:
                 bk = rng.choice(cfg["bad_kinds"])
+                if bk == "interrupt":
+                    # the mapping itself fails while handing over entry k (k = 0..n-1)
+                    exc = rng.choice(["KeyboardInterrupt", "SystemExit"])
+                    if cfg["sweep"] and not self.swept:
+                        self.swept = True
+                        self.stats.probe("sweeps")
+                        ops = []
+                        for k in range(len(good)):
+                            ops.append({"op": "open", "units": good,
+                                        "bad": {"k": k, "kind": "interrupt", "exc": exc}})
+                            ops.append({"op": "use", "sym": good[0]["sym"]})
+                        self.queue = ops[1:]
+                        return ops[0]
+                    return {"op": "open", "units": good,
+                            "bad": {"k": rng.randrange(len(good)), "kind": "interrupt",
+                                    "exc": exc}}
                 bad = self._bad_entry(rng, bk, reserved)
                 if bad is not None:
                     if cfg["sweep"] and not self.swept:
@@ -521,10 +553,13 @@ class UnitScopeMachine(Machine):
         else:
             units = build_units(spec)
             self.unit_objects[key] = units
+        if op.get("bad") and op["bad"]["kind"] == "interrupt":
+            units = InterruptingUnits(units, op["bad"]["k"], EXC[op["bad"]["exc"]])
         try:
             env = UnitEnvironment(units)
         except BaseException as e:
-            if isinstance(e, (SystemExit, MemoryError)):
+            if isinstance(e, MemoryError) or (isinstance(e, SystemExit) and not (
+                    op.get("bad") and op["bad"].get("exc") == "SystemExit")):
                 raise
             # Python never calls __exit__ for a scope whose construction failed:
             # whatever was registered before the failure must be gone already.
